@@ -131,7 +131,7 @@ int main(int argc, char** argv) {
     for (size_t c = 0; c < shapes.size(); c++) {
         for (int ext = 0; ext < 2; ext++) {
             Shape sh = shapes[c];
-            if (ext && (sh.nr % 2 == 0 || sh.nth % 2 == 1)) continue;     // extrapolation needs a coarsenable grid
+            if (ext && (sh.nr % 2 == 0 || sh.nth % 4 != 0)) continue;     // extrapolation needs a coarsenable grid (ntheta % 4 == 0 is asserted by the smoothers)
             std::vector<double> radii, angles; double Rmax = 1.3;
             random_grid(rng, sh.nr, sh.nth, false, radii, angles, Rmax);
             Problem pb = make_problem(rng, Rmax, (int)c % 4, -1);
